@@ -546,7 +546,11 @@ impl WorldGenerator for MoonBit {
             uwriteln!(&mut body, "{}", builtin);
         }
         // Import all exported interfaces
-        for (_, (_, impl_)) in self.export.iter() {
+        // Iterate in a fixed order (the map is a `HashMap`) so that the output
+        // doesn't depend on the per-process hash seed.
+        let mut exports = self.export.iter().collect::<Vec<_>>();
+        exports.sort_by(|a, b| a.0.cmp(b.0));
+        for (_, (_, impl_)) in exports {
             uwriteln!(&mut body, "{impl_}");
         }
 
